@@ -108,14 +108,20 @@ def c121(ctx):
     if rd is not nx:
         ctx.check(R, nx, "assembles-through", any(rd.key in ctx.prog.targets(t) for _b, t in nx.calls()), "LogIterator::next assembles batches through %s" % rd.skey,
                   "LogIterator::next does not call the frame-assembling function %s" % rd.skey)
-    cmps = discr_compares(rd)
-    accepted = {c.get("named", str(c.get("v"))): c.get("v") for _pt, _op, c in cmps}
-    ctx.check(R, rd, "tables", set(written.values()) == set(accepted.values()) and len(set(written.values())) == len(written),
-              "writer discriminants %s == reader discriminants %s, all distinct" % (sorted(written), sorted(accepted)),
-              "writer stores discriminants %s but the reader compares against %s" % (sorted(written.items()), sorted(accepted.items())))
-    # FIRST: true_up < next_frame(2nd) < SECOND comparison, all on the FIRST-equal edge
-    first_cmp = [pt for pt, op, c in cmps if (c.get("named") or "").endswith("HEADER_FIRST")]
-    second_cmp = [pt for pt, op, c in cmps if (c.get("named") or "").endswith("HEADER_SECOND")]
+    tests = K.value_tests(rd, lambda fn_, o_: ".discriminant" in K.src_names(fn_, o_))
+    val = lambda n_: (ctx.prog.consts.get("sst::log::" + n_) or {}).get("v")
+    accepted = sorted({t_["value"] for t_ in tests})
+    ctx.check(R, rd, "tables", set(written.values()) == set(accepted) and len(set(written.values())) == len(written),
+              "writer discriminants %s == reader discriminants %s, all distinct" % (sorted(written), accepted),
+              "writer stores discriminants %s but the reader tests for %s" % (sorted(written.items()), accepted))
+    # FIRST: true_up < next_frame(2nd) < SECOND test, all on the FIRST-equal edge
+    first_t = [t_ for t_ in tests if t_["value"] == val("HEADER_FIRST")]
+    second_t = [t_ for t_ in tests if t_["value"] == val("HEADER_SECOND")]
+    whole_t = [t_ for t_ in tests if t_["value"] == val("HEADER_WHOLE")]
+    first_cmp = [t_["pt"] for t_ in first_t]
+    second_cmp = [t_["pt"] for t_ in second_t]
+    second_eq = {e_ for t_ in second_t for e_ in t_["eq_edges"]}
+    whole_eq = {e_ for t_ in whole_t for e_ in t_["eq_edges"]}
     tu = ctx.calls(R, rd, LOG + r"LogIterator::true_up$")
     nf = ctx.calls(R, rd, LOG + r"LogIterator::next_frame$", floor=2)
     nf2 = [p for p in nf if not P.order(rd, tu, [p])]
@@ -124,10 +130,14 @@ def c121(ctx):
     if nf2 and first_cmp and second_cmp:
         ctx.order_chain(R, rd, [("discriminant == HEADER_FIRST", first_cmp), ("true_up", tu), ("next_frame (second)", nf2),
                                 ("discriminant != HEADER_SECOND", second_cmp)])
+        # ... and true_up is reached only on the FIRST-equal edge
+        for p_ in tu:
+            q = P.reach(rd, P.ENTRY, [p_], avoid_edges={e_ for t_ in first_t for e_ in t_["eq_edges"]})
+            ctx.check(R, rd, "first-edge", q is None, "the second frame is read only for a FIRST frame", "the second-frame path is reachable for a frame that is not FIRST", pt=p_, path=q)
     if tu and second_cmp:
-        c121_first_needs_second(ctx, rd, tu, second_cmp)
+        c121_first_needs_second(ctx, rd, tu, second_eq)
     # the buffered entries are handed out only after a WHOLE or a FIRST+SECOND pair: next_from_buffer at the end is reached
-    # only through the WHOLE-equal edge or through the SECOND comparison
+    # only through the WHOLE-equal edge or through the SECOND test
     nb = P.call_points(rd, LOG + r"LogIterator::next_from_buffer$")
     tail = [p for p in nb if not P.order(rd, nf, [p])]
     # a helper reports `a batch is ready` by Ok(true): those exits are hand-outs too
@@ -138,25 +148,24 @@ def c121(ctx):
             tail.append(p)
     ctx.floor(R, "hand-out points of the frame assembler", len(tail), 1)
     for pt in tail:
-        whole = [p for p, op, c in cmps if (c.get("named") or "").endswith("HEADER_WHOLE")]
-        p1 = P.reach(rd, P.ENTRY, [pt], avoid=set(second_cmp), avoid_edges=_equal_edges(rd, whole))
+        p1 = P.reach(rd, P.ENTRY, [pt], avoid_edges=whole_eq | second_eq)
         ctx.check(R, rd, "hand-out", p1 is None, "entries of a frame are handed out only for WHOLE or after the SECOND check",
                   "buffered entries can be handed out for a frame that is neither WHOLE nor a completed FIRST+SECOND", pt=pt, path=p1)
-        # after a FIRST frame the hand-out is reached only through the equal edge of the SECOND comparison
+        # after a FIRST frame the hand-out is reached only through the equal edge of the SECOND test
         starts = [q for n in nf2 for q in P.after(rd, n)]
-        p2 = P.reach(rd, starts, [pt], avoid_edges=_equal_edges(rd, second_cmp))
+        p2 = P.reach(rd, starts, [pt], avoid_edges=second_eq)
         ctx.check(R, rd, "second-gate", p2 is None and bool(second_cmp),
                   "after a FIRST frame the entries are handed out only on the equal edge of discriminant == HEADER_SECOND",
                   "a FIRST frame can be completed by a frame that is not SECOND", pt=pt, path=p2)
 
 
-def c121_first_needs_second(ctx, rd, tu, second_cmp):
+def c121_first_needs_second(ctx, rd, tu, second_eq):
     """Once a FIRST frame has been read, the only way not to fail is a SECOND frame: an end of input there is a cut inside a batch, which the
     reader cannot tell from `the writer died before the second frame` and must report."""
     R = "C12.1"
     starts = [q for t_ in tu for q in P.after(rd, t_)]
     for p in P.ok_points(rd):
-        q = P.reach(rd, starts, [p], avoid_edges=_equal_edges(rd, second_cmp)) if starts else None
+        q = P.reach(rd, starts, [p], avoid_edges=second_eq) if starts else None
         ctx.check(R, rd, "first-without-second-is-an-error", q is None and bool(starts), "after a FIRST frame no success exit is reached except through the SECOND frame",
                   "after a FIRST frame the reader can return success without having read its SECOND frame (an end of input there is answered `log ended`): "
                   "a log cut between the two frames of a split batch replays without error, minus that batch", pt=p, path=q)
